@@ -51,6 +51,17 @@ def judge_ctl(run, cases, rows):
         r = rows[c["id"]]
         run.cov["traces_validated_against_impl"] += 1
         run.cov["controller_events"] = run.cov.get("controller_events", 0) + sum(len(st["events"]) for st in c["ctl"])
+        # a warning must name its cause: every warning the Configuration holds for a resource (or for a minion, as a child warning)
+        # is in the message of the success Event about it
+        for i, st in enumerate(c["ctl"]):
+            un = (st.get("verr") or {}).get("unnamed") or []
+            if un:
+                ev = c["histories"][0]["events"][i]
+                run.failing({"kind": "warning-not-named", "level": "controller-events", "event_kind": ev["spec"]["kind"]}, [c],
+                            "C05: at step %d of case %d (%s %s %s/%s) the real LoadBalancerController.sync recorded an 'added or updated' Event whose message does not name a warning "
+                            "that the Configuration holds for the object: %s" % (i + 1, c["id"], ev["op"], ev["spec"]["kind"], ev["spec"].get("ns"), ev["spec"].get("name"), json.dumps(un)[:400]),
+                            theorem="harness rule unnamedWarnings (zz_verif_arbctl.go)")
+                break
         if r[DS] != 0:
             ev = c["histories"][0]["events"][r[DS] - 1]
             run.failing({"kind": KIND.get(r[DC], str(r[DC])), "level": "controller-events", "event_kind": ev["spec"]["kind"]}, [c],
